@@ -1,4 +1,4 @@
-import PPLV.Gen.CIfaceTable
+import PPLV.CIface.Proofs
 
 /-!
 # C20 — the C interface is a faithful, exception-tight wrapper of the C++ library
@@ -16,14 +16,7 @@ is covered by the correspondence harness `harness/c20_ciface.cc`.
 namespace C20
 open PPLV.CIface PPLV.Gen
 
-/-! ### plumbing: from a Boolean sweep over the chunks to `∀ f ∈ cEntryPoints` -/
-
-theorem of_chunks (p : EntryPoint → Bool)
-    (h : cEntryChunks.all (fun c => c.all p) = true) : ∀ f ∈ cEntryPoints, p f = true := by
-  intro f hf
-  unfold cEntryPoints at hf
-  rcases List.mem_flatten.mp hf with ⟨c, hc, hfc⟩
-  exact List.all_eq_true.mp (List.all_eq_true.mp h c hc) f hfc
+private abbrev of_chunks := @forall_of_chunks
 
 /-- The table really has the advertised size (so none of the sweeps below is vacuous). -/
 theorem table_size : cEntryPoints.length = numEntryPoints ∧ 1800 ≤ numEntryPoints := by
